@@ -145,6 +145,9 @@ func dropNulls(v interface{}) interface{} {
 	return v
 }
 
+// body schemas of the first operation, by spec index
+var c04BodyKinds = []string{"thing", "bytes", "thing", "date", "ints"}
+
 type c04Op struct {
 	name   string
 	method string
@@ -192,6 +195,9 @@ func CheckC04(run *ev.Run) {
 					o.params = append(o.params, p)
 				}
 			}
+			// one unconstrained string scalar per operation (query / formData): it takes the values with white space at either end
+			free := &PSpecJ{Name: fmt.Sprintf("p%dfree", oi), In: map[int]string{0: "query", 1: "formData"}[oi], Ty: "str"}
+			o.params = append(o.params, free)
 			if oi == 0 {
 				add("query", 4)
 				add("header", 2)
@@ -203,7 +209,11 @@ func CheckC04(run *ev.Run) {
 				params = append(params, p.render())
 			}
 			if o.body {
-				params = append(params, map[string]interface{}{"name": "body", "in": "body", "schema": map[string]interface{}{"$ref": "#/definitions/thing"}})
+				// the body schema varies from spec to spec: a model, base64 bytes, a date, an array of integers
+				bodySchema := map[string]map[string]interface{}{
+					"thing": {"$ref": "#/definitions/thing"}, "bytes": {"type": "string", "format": "byte"}, "date": {"type": "string", "format": "date"},
+					"ints": {"type": "array", "items": map[string]interface{}{"type": "integer", "format": "int64"}}}[c04BodyKinds[si%len(c04BodyKinds)]]
+				params = append(params, map[string]interface{}{"name": "body", "in": "body", "schema": bodySchema})
 			}
 			resps := map[string]interface{}{"200": map[string]interface{}{"description": "ok", "schema": map[string]interface{}{"$ref": "#/definitions/thing"},
 				"headers": map[string]interface{}{"X-Rate": map[string]interface{}{"type": "integer"}, "X-Tag": map[string]interface{}{"type": "string"}}}}
@@ -258,6 +268,9 @@ func CheckC04(run *ev.Run) {
 					continue
 				}
 				v := c04Value(r, p)
+				if strings.HasSuffix(p.Name, "free") && ci%3 == 0 {
+					v = c04Strings[len(c04Strings)-1-(ci/3)%4] // the four padded strings in turn
+				}
 				if v == nil {
 					if p.Required {
 						given = nil
@@ -272,7 +285,16 @@ func CheckC04(run *ev.Run) {
 				continue
 			}
 			if o.body && r.Chance(3, 4) {
-				given["Body"] = map[string]interface{}{"name": r.Pick(c04Strings), "count": int64(1 + r.Intn(100)), "tags": []interface{}{"a", "b c"}}
+				switch c04BodyKinds[si%len(c04BodyKinds)] {
+				case "bytes":
+					given["Body"] = r.Pick([]string{"aGVsbG8=", "AAEC", "/w=="})
+				case "date":
+					given["Body"] = r.Pick([]string{"2020-01-02", "1999-12-31"})
+				case "ints":
+					given["Body"] = []interface{}{int64(1), int64(-2), int64(3000000000)}
+				default:
+					given["Body"] = map[string]interface{}{"name": r.Pick(c04Strings), "count": int64(1 + r.Intn(100)), "tags": []interface{}{"a", "b c"}}
+				}
 			}
 			// script
 			var sc PairScript
